@@ -66,7 +66,7 @@ def _cases(shard):
         V = st.integers(0, 5)
         fresh = st.booleans()
         op = lambda *a: st.tuples(*[st.just(x) if isinstance(x, str) else x for x in a]).map(list)
-        B = st.one_of(st.none(), K)
+        B = st.one_of(st.none(), K, st.builds(lambda i, l: {'edge': i, 'last': l}, st.integers(0, 12), st.booleans()))
         okinds = ['Set', 'TreeSet', 'list'] + (['Bucket', 'BTree'] if is_map else [])
         ks = st.lists(K, max_size=7)
         if is_map:
